@@ -355,6 +355,14 @@ pub fn build_query(id: u16, flags: u16, qs: &[(Vec<u8>, u16, u16)]) -> Vec<u8> {
 }
 
 pub fn gen_in_a_query(rng: &mut Rng) -> Vec<u8> {
+    if rng.chance(1, 40) {
+        // the most questions a frame can hold: questions for the root name (5 bytes each), also
+        // mixed with one-letter names
+        let n = *rng.pick(&[2usize, 255, 256, 576, 577, 578, 600, 700, 800, 808]);
+        let mixed = n <= 600 && rng.chance(1, 2);
+        let qs: Vec<(Vec<u8>, u16, u16)> = (0..n).map(|k| (if mixed && k % 5 == 0 { vec![1u8, b'a' + (k % 26) as u8, 0] } else { vec![0u8] }, 1u16, 1u16)).collect();
+        return build_query(rng.u16(), gen_flags_query(rng), &qs);
+    }
     if rng.chance(1, 25) {
         // very many questions (short names, so that the query fits one frame)
         let n = *rng.pick(&[20usize, 64, 100, 101, 128, 200, 255, 256, 300, 420, 512, 575]);
